@@ -113,7 +113,13 @@ theorem jstep_effect (s : Store) (j : Nat) (jc : JCache) (k : JKind) (pc : JPc)
   | rdSnap h =>
     simp only [jstep]
     simp [JPc.known] at hknown
-    split <;> (apply JEffect.quiet <;> simp [JPc.isPutHead, JPc.known, hknown, hcache])
+    split
+    · split
+      · apply JEffect.quiet <;> simp [JPc.isPutHead, JPc.known, hknown, hcache]
+      · apply JEffect.quiet <;> simp [JPc.isPutHead, hknown]
+        intro pc' hp; have := afterLoad_pc _ _ _ _ _ hp; subst this; simp [JPc.isPutHead, JPc.known, hknown]
+    · apply JEffect.quiet <;> simp [JPc.isPutHead, JPc.known, hknown, hcache]
+    · apply JEffect.quiet <;> simp [JPc.isPutHead, JPc.known, hknown, hcache]
   | rdTail h =>
     simp only [jstep]
     simp [JPc.known] at hknown
@@ -154,6 +160,14 @@ def Proc.onJ (j : Nat) : Proc → Option (Nat × JPc)
   | .bc b (.update _ _ _ pc) => if b.pool = j then some (b.slot, pc) else none
   | _ => none
 
+/-- The journal procedure kind (load / commit op attempt) a procedure is running on journal j. -/
+def Proc.kindOn (j : Nat) : Proc → Option JKind
+  | .jp j' _ k _ => if j' = j then some k else none
+  | .bc b (.lookup _) => if b.pool = j then some .load else none
+  | .bc b (.update tip id attempt _) =>
+    if b.pool = j then some (.commit (.update b.branch tip id) attempt) else none
+  | _ => none
+
 def Proc.resets (j : Nat) : Proc → Bool
   | .create j' _ => j' == j
   | .delPool p => p == j
@@ -166,11 +180,51 @@ def Client.onJ (x : Client) (j : Nat) : Option (Nat × JPc) :=
 
 def Client.pcOn (x : Client) (j : Nat) : Option JPc := (x.onJ j).map (·.2)
 
+def Client.kindOn (x : Client) (j : Nat) : Option JKind :=
+  match x.proc with
+  | some p => p.kindOn j
+  | none => none
+
+/-- A journal step keeps the procedure kind, except that a commit moves on to its next attempt. -/
+theorem afterLoad_kind (s c k ev st jc k' pc' ev') (h : afterLoad s c k ev = .cont st jc k' pc' ev') : k' = k := by
+  unfold afterLoad at h
+  split at h
+  · cases h
+  · split at h
+    · cases h
+    · cases h; rfl
+
+theorem jstep_kind (s j jc k pc st jc' k' pc' ev)
+    (h : jstep s j jc k pc = .cont st jc' k' pc' ev) :
+    k' = k ∨ ∃ op a, k = .commit op a ∧ k' = .commit op (a + 1) := by
+  cases pc <;> simp only [jstep] at h
+  all_goals (repeat' split at h)
+  all_goals (first
+    | (cases h; done)
+    | (left; exact afterLoad_kind _ _ _ _ _ _ _ _ _ h)
+    | (cases h; left; rfl)
+    | (cases h; right; exact ⟨_, _, rfl, rfl⟩))
+
+theorem jstep_kind_load (s j jc pc st jc' k' pc' ev)
+    (h : jstep s j jc .load pc = .cont st jc' k' pc' ev) : k' = .load := by
+  rcases jstep_kind _ _ _ _ _ _ _ _ _ _ h with h1 | ⟨op, a, h1, _⟩
+  · exact h1
+  · cases h1
+
+theorem jstep_kind_commit (s j jc op a pc st jc' k' pc' ev)
+    (h : jstep s j jc (.commit op a) pc = .cont st jc' k' pc' ev) : ∃ a', k' = .commit op a' := by
+  rcases jstep_kind _ _ _ _ _ _ _ _ _ _ h with h1 | ⟨op', a', h1, h2⟩
+  · exact ⟨a, h1⟩
+  · cases h1; exact ⟨_, h2⟩
+
 @[simp] theorem setClient_same (s : Sys) (c x) : (s.setClient c x).cl c = x := by simp [Sys.setClient]
 theorem setClient_other (s : Sys) (c c' x) (h : c' ≠ c) : (s.setClient c x).cl c' = s.cl c' := by
   simp [Sys.setClient, h]
 @[simp] theorem setClient_store (s : Sys) (c x) : (s.setClient c x).store = s.store := rfl
 @[simp] theorem setClient_next (s : Sys) (c x) : (s.setClient c x).next = s.next := rfl
+
+@[simp] theorem setCache_proc (x : Client) (j slot jc) : (x.setCache j slot jc).proc = x.proc := rfl
+@[simp] theorem setCache_res (x : Client) (j slot jc) : (x.setCache j slot jc).res = x.res := rfl
 
 /-- What one step of client c means for journal j. -/
 inductive StepJ (j : Nat) (s : Sys) (c : Nat) (s' : Sys) : Prop
@@ -179,11 +233,16 @@ inductive StepJ (j : Nat) (s : Sys) (c : Nat) (s' : Sys) : Prop
       (hold : (s.cl c).onJ j = none)
       (hnew : (s'.cl c).pcOn j = none ∨ (s'.cl c).pcOn j = some .rdHead)
       (hcache : ∀ slot, (s'.cl c).cache j slot = (s.cl c).cache j slot)
+      (hsnap : s'.store (.snap j) = s.store (.snap j))
+      (htail : s'.store (.tail j) = s.store (.tail j))
   | jrun (slot : Nat) (k : JKind) (pc : JPc) (hold : (s.cl c).onJ j = some (slot, pc))
       (hst : s'.store = (jstep s.store j ((s.cl c).cache j slot) k pc).store)
       (hpc : (s'.cl c).pcOn j = (jstep s.store j ((s.cl c).cache j slot) k pc).pc?)
       (hcache : ∀ sl, (s'.cl c).cache j sl =
         if sl = slot then (jstep s.store j ((s.cl c).cache j slot) k pc).cache else (s.cl c).cache j sl)
+      (hkind : (s.cl c).kindOn j = some k)
+      (hkind' : ∀ st jc k' pc' ev, jstep s.store j ((s.cl c).cache j slot) k pc = .cont st jc k' pc' ev →
+        (s'.cl c).kindOn j = some k' ∧ (s'.cl c).onJ j = some (slot, pc'))
   | reset (p : Proc) (hp : (s.cl c).proc = some p) (hr : p.resets j = true)
 
 theorem Client.setCache_get (x : Client) (j slot jc j' sl) :
@@ -224,12 +283,16 @@ theorem step_summary (s : Sys) (c j : Nat) : StepJ j s c (s.step c).1 := by
       · split <;> simp_all
       · split <;> simp_all [Client.pcOn, Client.onJ, Proc.onJ, Client.setCache]
       · intro sl; split <;> simp_all [Client.setCache]
+      · simp [Client.kindOn, hp, Proc.kindOn]
+      · intro st jc k' pc' ev heq; rw [heq]; simp [Client.kindOn, Client.onJ, Proc.kindOn, Proc.onJ]
     · apply StepJ.frame
       · split <;> (rename_i heq; have := jstep_frame s.store j' ((s.cl c).cache j' slot) k pc (.head j) (by simp [Path.pool]; omega); simp_all)
       · intro n; split <;> (rename_i heq; have := jstep_frame s.store j' ((s.cl c).cache j' slot) k pc (.ent j n) (by simp [Path.pool]; omega); simp_all)
       · simp [Client.onJ, hp, Proc.onJ, hj]
       · split <;> simp_all [Client.pcOn, Client.onJ, Proc.onJ, Client.setCache]
       · intro sl; split <;> simp_all [Client.setCache, Ne.symm hj]
+      · split <;> (rename_i heq; have := jstep_frame s.store j' ((s.cl c).cache j' slot) k pc (.snap j) (by simp [Path.pool]; omega); simp_all)
+      · split <;> (rename_i heq; have := jstep_frame s.store j' ((s.cl c).cache j' slot) k pc (.tail j) (by simp [Path.pool]; omega); simp_all)
   · -- bc lookup
     rename_i b pc hp
     by_cases hj : b.pool = j
@@ -249,6 +312,11 @@ theorem step_summary (s : Sys) (c j : Nat) : StepJ j s c (s.step c).1 := by
         · simp_all [bcAfterLookup]
           repeat' split
           all_goals simp_all [Client.setCache]
+      · simp [Client.kindOn, hp, Proc.kindOn]
+      · intro st jc k' pc' ev heq
+        have := jstep_kind_load _ _ _ _ _ _ _ _ _ heq
+        subst this
+        rw [heq]; simp [Client.kindOn, Client.onJ, Proc.kindOn, Proc.onJ]
     · apply StepJ.frame
       · have := jstep_frame s.store b.pool ((s.cl c).cache b.pool b.slot) .load pc (.head j) (by simp [Path.pool]; omega)
         split
@@ -274,6 +342,18 @@ theorem step_summary (s : Sys) (c j : Nat) : StepJ j s c (s.step c).1 := by
         · simp_all [bcAfterLookup]
           repeat' split
           all_goals simp_all [Client.setCache, Ne.symm hj]
+      · have := jstep_frame s.store b.pool ((s.cl c).cache b.pool b.slot) .load pc (.snap j) (by simp [Path.pool]; omega)
+        split
+        · simp_all
+        · simp_all [bcAfterLookup]
+          repeat' split
+          all_goals simp_all
+      · have := jstep_frame s.store b.pool ((s.cl c).cache b.pool b.slot) .load pc (.tail j) (by simp [Path.pool]; omega)
+        split
+        · simp_all
+        · simp_all [bcAfterLookup]
+          repeat' split
+          all_goals simp_all
   · -- bc putObj
     rename_i b tip id hp
     apply StepJ.frame
@@ -282,6 +362,8 @@ theorem step_summary (s : Sys) (c j : Nat) : StepJ j s c (s.step c).1 := by
     · simp [Client.onJ, hp, Proc.onJ]
     · by_cases hj : b.pool = j <;> simp [Client.pcOn, Client.onJ, Proc.onJ, hj]
     · intro sl; simp
+    · simp [Store.put]
+    · simp [Store.put]
   · -- bc update
     rename_i b tip id attempt pc hp
     by_cases hj : b.pool = j
@@ -297,6 +379,11 @@ theorem step_summary (s : Sys) (c j : Nat) : StepJ j s c (s.step c).1 := by
       · intro sl; split
         · simp_all [Client.setCache]
         · rename_i heq; rw [heq]; split <;> simp_all [Client.setCache]
+      · simp [Client.kindOn, hp, Proc.kindOn]
+      · intro st jc k' pc' ev heq
+        obtain ⟨a', ha'⟩ := jstep_kind_commit _ _ _ _ _ _ _ _ _ _ _ heq
+        subst ha'
+        rw [heq]; simp [Client.kindOn, Client.onJ, Proc.kindOn, Proc.onJ]
     · apply StepJ.frame
       · have := jstep_frame s.store b.pool ((s.cl c).cache b.pool b.slot) (.commit (.update b.branch tip id) attempt) pc (.head j) (by simp [Path.pool]; omega)
         split
@@ -314,6 +401,14 @@ theorem step_summary (s : Sys) (c j : Nat) : StepJ j s c (s.step c).1 := by
       · intro sl; split
         · simp_all [Client.setCache, Ne.symm hj]
         · split <;> simp_all [Client.setCache, Ne.symm hj]
+      · have := jstep_frame s.store b.pool ((s.cl c).cache b.pool b.slot) (.commit (.update b.branch tip id) attempt) pc (.snap j) (by simp [Path.pool]; omega)
+        split
+        · simp_all
+        · simp_all; split <;> simp_all
+      · have := jstep_frame s.store b.pool ((s.cl c).cache b.pool b.slot) (.commit (.update b.branch tip id) attempt) pc (.tail j) (by simp [Path.pool]; omega)
+        split
+        · simp_all
+        · simp_all; split <;> simp_all
   · -- bc cleanup
     rename_i b id err hp
     apply StepJ.frame
@@ -326,6 +421,10 @@ theorem step_summary (s : Sys) (c j : Nat) : StepJ j s c (s.step c).1 := by
       all_goals (by_cases hj : b.pool = j <;> simp [Client.pcOn, Client.onJ, Proc.onJ, hj])
     · intro sl; repeat' split
       all_goals simp
+    · repeat' split
+      all_goals simp [Store.del]
+    · repeat' split
+      all_goals simp [Store.del]
   · -- create
     rename_i j' stage hp
     by_cases hj : j' = j
@@ -336,6 +435,8 @@ theorem step_summary (s : Sys) (c j : Nat) : StepJ j s c (s.step c).1 := by
       · simp [Client.onJ, hp, Proc.onJ]
       · split <;> simp [Client.pcOn, Client.onJ, Proc.onJ]
       · intro sl; split <;> simp
+      · split <;> simp [Store.put]
+      · split <;> simp [Store.put, Ne.symm hj]
   · -- openJ
     rename_i j' hp
     apply StepJ.frame <;> simp [Client.onJ, Client.pcOn, hp, Proc.onJ]
@@ -349,6 +450,8 @@ theorem step_summary (s : Sys) (c j : Nat) : StepJ j s c (s.step c).1 := by
       · simp [Client.onJ, hp, Proc.onJ]
       · simp [Client.pcOn, Client.onJ]
       · intro sl; simp
+      · simp [Store.delPool, Path.pool, Ne.symm hj]
+      · simp [Store.delPool, Path.pool, Ne.symm hj]
 
 /-- Labels that destroy journal j: DeleteByPrefix of pool j (refused by `start` for j = 0). -/
 def Start.resets (j : Nat) : Start → Bool
@@ -429,8 +532,6 @@ theorem start_summary (s : Sys) (c : Nat) (st : Start) (j : Nat) (hst : st.reset
 
 
 
-@[simp] theorem setCache_proc (x : Client) (j slot jc) : (x.setCache j slot jc).proc = x.proc := rfl
-@[simp] theorem setCache_res (x : Client) (j slot jc) : (x.setCache j slot jc).res = x.res := rfl
 
 theorem step_noreset (s : Sys) (c j : Nat) (h : ∀ p, (s.cl c).proc = some p → p.resets j = false) :
     ∀ p', (((s.step c).1).cl c).proc = some p' → p'.resets j = false := by
@@ -720,7 +821,9 @@ structure JFresh (j : Nat) (s : Sys) : Prop where
   head : s.store (.head j) = some (.num 0)
   noent : ∀ n, s.store (.ent j n) = none
   idle : ∀ c, (s.cl c).pcOn j = none
-  cache : ∀ c sl, ((s.cl c).cache j sl).pos = 0
+  cache : ∀ c sl, (s.cl c).cache j sl = JCache.empty
+  tail : s.store (.tail j) = some (.tailv 1 0)
+  nosnap : s.store (.snap j) = none
   alloc : j < s.next
   noreset : ∀ c p, (s.cl c).proc = some p → p.resets j = false
 
@@ -733,7 +836,7 @@ theorem JFresh.inv1 {j s} (h : JFresh j s) : Inv1 j s 0 := by
   · intro c n hc; rw [h.idle c] at hc; cases hc
   · intro c c' n n' hc; rw [h.idle c] at hc; cases hc
   · intro c pc p hc; rw [h.idle c] at hc; cases hc
-  · intro c sl; rw [h.cache c sl]; omega
+  · intro c sl; rw [h.cache c sl]; simp [JCache.empty]
   · exact h.alloc
   · exact h.noreset
   · intro n v hv; rw [h.noent n] at hv; cases hv
